@@ -163,7 +163,11 @@ def _run_check_on(pid, sources):
     # analyses are cached per Program object
     prog = Program(sources=sources)
     rep = Report(pid, "thorough", 0)
-    mod.run(prog, rep)
+    try:
+        mod.run(prog, rep)
+    except Exception:
+        if not any(i["status"] == "violation" for i in rep.items):
+            raise
     new = [i for i in rep.items if i["status"] == "violation"]
     from . import analysis
     analysis._CACHE.pop(id(prog), None)
